@@ -317,9 +317,10 @@ func checkCase(c Case) error {
 				go func() {
 					defer wg.Done()
 					<-gate
-					if o.generic.Terminate(o.id) == nil {
-						atomic.AddInt32(&okCount, 1)
-					}
+					// its result is not judged: a terminate() that finds the object
+					// already gone may still be acknowledged; the termination hook
+					// count below is what the property fixes
+					o.generic.Terminate(o.id)
 				}()
 			}
 			var res string
@@ -334,8 +335,8 @@ func checkCase(c Case) error {
 			case <-time.After(bound):
 				return vt.Violationf("C16:race-hangs", "step %d: concurrent Remove x2 + call on object %d did not finish within %v", i, o.id, bound)
 			}
-			if okCount != 1 {
-				return vt.Violationf("C16:concurrent-remove", "step %d: %d concurrent removals of object %d (2..4 Remove calls, terminate every other time) succeeded instead of exactly one", i, okCount, o.id)
+			if okCount > 1 || (okCount == 0 && op.Target%2 == 0) {
+				return vt.Violationf("C16:concurrent-remove", "step %d: %d of the concurrent Remove calls on object %d succeeded (2..4 Remove calls, a remote terminate every other time): exactly one removal may succeed", i, okCount, o.id)
 			}
 			if cerr == nil && res != "r:race" {
 				return vt.Violationf("C16:wrong-answer", "step %d: racing call answered %q", i, res)
